@@ -498,3 +498,31 @@ def exact_area(poly, plane):
         A[2] += u[0] * v[1] - u[1] * v[0]
     nn = math.sqrt(float(n[0] * n[0] + n[1] * n[1] + n[2] * n[2]))
     return abs(float(A[0] * n[0] + A[1] * n[1] + A[2] * n[2])) / (2.0 * nn)
+
+
+def bary_exact(T, v):
+    """barycentric coordinates (Fractions) of the point v (Fractions) in the tetrahedron T (floats)"""
+    a, b, c, e = [[_fr(x) for x in p] for p in T]
+
+    def sub(p, q):
+        return [p[0] - q[0], p[1] - q[1], p[2] - q[2]]
+
+    def det(u, w, z):
+        return (u[0] * (w[1] * z[2] - w[2] * z[1]) - u[1] * (w[0] * z[2] - w[2] * z[0])
+                + u[2] * (w[0] * z[1] - w[1] * z[0]))
+    ba, ca, ea, va = sub(b, a), sub(c, a), sub(e, a), sub(v, a)
+    d = det(ba, ca, ea)
+    lb, lc, le = det(va, ca, ea) / d, det(ba, va, ea) / d, det(ba, ca, va) / d
+    return [1 - lb - lc - le, lb, lc, le]
+
+
+def concurrent_lines(t1, t2, plane, tol=1e-9):
+    """does some vertex of the exact contact polygon (plane as given) lie on three or more of the
+    eight face planes, i.e. are face lines coincident or concurrent in the contact plane?
+    (input-class predicate of known finding F18)"""
+    P = exact_polygon(t1, t2, plane)
+    for v in P:
+        bs = bary_exact(t1, v) + bary_exact(t2, v)
+        if sum(1 for x in bs if abs(float(x)) <= tol) >= 3:
+            return True
+    return False
